@@ -1487,6 +1487,18 @@ class SRl:
     def __ne__(self, o): return SBool(self.r != SRl.of(o).r)
     __hash__ = None
 
+    def rne(self):
+        """round-half-even to an integer, as a z3 Int term"""
+        q = z3.ToInt(self.r)            # floor
+        fr = self.r - z3.ToReal(q)
+        return q + z3.If(z3.Or(fr > z3.RealVal("1/2"), z3.And(fr == z3.RealVal("1/2"), q % 2 == 1)), 1, 0)
+
+    def __round__(self, ndigits=None):
+        from .values import SInt
+        if ndigits is not None:
+            raise OutsideModel("round(x, ndigits) on an exact real")
+        return SInt(self.rne(), "int")
+
     def __zexpr__(self):
         return self.r
 
